@@ -199,3 +199,11 @@ Definition run (sz : N) (n_init n_threads : nat) (sched : list ev) : obs :=
   let tr := trace s0 sched in
   OL [ OL (map (fun ex => obs_event (fst ex) (snd ex)) (combine sched tr));
        OL (map (fun r => OL [ON (rid r); ON (built_for r)]) (queue (pl (exec s0 sched)))) ].
+
+(* ---- the pool calls made by the two provers (checked against the source text by the harness) ----
+   method codes: 0 size, 1 clear_and_increment_discriminant, 2 give_back_resource,
+   3 acquire_resource, 4 give_back_resource_pool_item, 5 set_discriminant, 6 clear,
+   7 discriminant, 8 count, 9 reset_available_resources.
+   compute_cache calls size, clear_and_increment_discriminant, give_back_resource in this order;
+   the rest of the file only acquires and gives items back (or lets them drop). *)
+Definition prover_calls : obs := OL [OL [OZ 0; OZ 1; OZ 2]; OL [OZ 3; OZ 4]].
